@@ -31,7 +31,7 @@ func main() {
 	}
 	switch os.Args[1] {
 	case "build":
-		bin, err := buildErgo(repoDir, "/verif", "/verif/build")
+		bin, err := buildErgo(repoDir, verifDir, filepath.Join(verifDir, "build"))
 		if err != nil {
 			fmt.Fprintln(os.Stderr, err)
 			os.Exit(2)
@@ -76,7 +76,7 @@ func devMain(args []string) {
 	seed := fs.Uint64("seed", envSeed(), "")
 	verbose := fs.Bool("v", false, "")
 	fs.Parse(args)
-	bin, err := buildErgo(repoDir, "/verif", "/verif/build")
+	bin, err := buildErgo(repoDir, verifDir, filepath.Join(verifDir, "build"))
 	if err != nil {
 		fmt.Fprintln(os.Stderr, err)
 		os.Exit(2)
